@@ -258,6 +258,9 @@ func (h *History) run(pc protocol.Client, tb *Table, oidOf func(*operation.Ancho
 	}
 	proc := processor.New("verif", &sliceStore{ops: h.Pub}, pc, popts...)
 	var ropts []document.ResolutionOption
+	if (len(h.Pub)+2*len(h.Unpub))%3 == 1 {
+		ropts = append(ropts, nil) // a nil option is skipped, wherever it stands in the list
+	}
 	var addOpt document.ResolutionOption
 	if len(h.Additional) > 0 {
 		var add []*operation.AnchoredOperation
